@@ -369,7 +369,7 @@ pub fn permutations(n: usize, k: usize, r: &mut StdRng) -> Vec<Vec<usize>> {
 }
 
 /// Random multi-kind history.
-pub fn random_history(out: &mut Out, tag: &str, seed: u64, net: NetID, blocks: usize, fee_mult: u128) {
+pub fn random_history(out: &mut Out, tag: &str, seed: u64, net: NetID, blocks: usize, fee_mult: u128, jump: u64) {
     let mut d = Driver::new(out, tag, seed, net, fee_mult, Denom::Mel, 1u128 << 60, 1 << 40, BTreeMap::new());
     // bootstrap: first block creates the pools; faucets provide SYM / ERG when allowed
     d.seal_next(Some(false));
@@ -379,7 +379,32 @@ pub fn random_history(out: &mut Out, tag: &str, seed: u64, net: NetID, blocks: u
         let f = d.faucet(vec![mk_coin(a, 5_000_000_000, Denom::Sym, &[]), mk_coin(b, 7_000_000_000, Denom::Erg, &[]), mk_coin(a, 1_000_000_000_000, Denom::Mel, &[])], 0, 1);
         d.apply(&[f], 0, json!({"why": "bootstrap-faucet"}));
     }
+    if net == NetID::Mainnet {
+        // the one grandfathered historical faucet (block 1214212 of mainnet), applied and replayed
+        let exceptional = Transaction {
+            kind: TxKind::Faucet,
+            inputs: vec![],
+            outputs: vec![CoinData { value: CoinValue::from_millions(1001u64), denom: Denom::Mel,
+                                     covhash: "t3ew4xh2yts8j1a8vzdfpbkzzvb5gz3sn7s9jw7qc9djrph2wpg52g".parse().unwrap(), additional_data: vec![].into() }],
+            data: hex::decode("202fb0573b6dfe780f249bec6069bb39dbccb7ed9536c0480e20e1e29050f430").unwrap().into(),
+            fee: CoinValue::from_millions(1001u64),
+            covenants: vec![],
+            sigs: vec![],
+        };
+        d.apply(&[exceptional.clone()], 0, json!({"why": "grandfathered mainnet faucet"}));
+        d.apply(&[exceptional.clone()], 0, json!({"why": "grandfathered mainnet faucet again in the same block"}));
+        d.faucets.push(exceptional);
+    }
+    let jump_at = if jump > 0 { blocks / 2 } else { usize::MAX };
     for _b in 0..blocks {
+        if _b == jump_at {
+            if let Some(sealed) = d.seal_next(Some(true)) {
+                let j = d.w.jump(sealed, jump);
+                d.cur = d.w.next(j);
+                d.block_start = d.cur;
+                d.block_batches.clear();
+            }
+        }
         let nb = d.r.gen_range(1..5);
         for _ in 0..nb {
             step(&mut d);
